@@ -34,7 +34,11 @@ def jet_couplings(seed=True):
 
 
 def ns_gammas(order):
-    return [SR.var("g%d" % k) for k in range(order)]
+    """the tower as the callers hand it over: ONE numpy array (slices of it are views, in-place updates reach the caller)"""
+    out = realnp.empty(order, dtype=object)
+    for k in range(order):
+        out[k] = SR.var("g%d" % k)
+    return out
 
 
 def singlet_gammas(order, kind="general"):
